@@ -38,7 +38,8 @@ var cfgB = srv.Cfg{Services: []srv.Svc{{Listeners: []srv.Ln{{Type: "tcp", Addr: 
 // (what one service offers must not depend on what another one does)
 var cfgD = srv.Cfg{Services: []srv.Svc{
 	{Listeners: []srv.Ln{{Type: "tcp", Addr: "127.0.0.1:9002"}}, Keys: []srv.Key{kA}},
-	{Listeners: []srv.Ln{{Type: "tcp", Addr: "127.0.0.1:9000"}, {Type: "udp", Addr: "127.0.0.1:9000"}}, Keys: []srv.Key{kC, kA}},
+	// (and it lists one secret twice, under two IDs, ahead of the retained key)
+	{Listeners: []srv.Ln{{Type: "tcp", Addr: "127.0.0.1:9000"}, {Type: "udp", Addr: "127.0.0.1:9000"}}, Keys: []srv.Key{kC, {ID: "c-again", Cipher: kC.Cipher, Secret: kC.Secret}, kA}},
 }}
 
 // the same two configurations in the legacy `keys:` format (every port serves TCP and UDP)
